@@ -496,3 +496,137 @@ func case_AliasString_0() uint64 {
 	return UseString(12345)
 }
 `
+
+// LookalikeValuePackages: a second batch with the same package names. Flavour "val": the special type
+// names declared as structs with VALUE receivers and used as values (d := Disk{...}; d.Read(1));
+// flavour "iface": Disk, File declared as INTERFACES of the user package implemented by a local struct.
+// Packages <N> (flavour val), <N>_user (imports it) for every look-alike name; the interface flavour
+// lives in packages named like the FFI packages only (a second directory level: ifc/<N>).
+func LookalikeValuePackages(modPath string) []*Package {
+	const valBody = `
+type Disk struct {
+	n uint64
+}
+
+func (d Disk) Read(a uint64) uint64 {
+	return d.n + a
+}
+
+func (d Disk) Write(a uint64, v uint64) uint64 {
+	return d.n + a*10 + v
+}
+
+func (d Disk) Size() uint64 {
+	return d.n + 1000
+}
+
+func (d Disk) Barrier() uint64 {
+	return d.n * 2
+}
+
+type File struct {
+	pos uint64
+}
+
+func (f File) Len() uint64 {
+	return f.pos + 3
+}
+
+type Block struct {
+	b0 uint64
+}
+
+func (b Block) First() uint64 {
+	return b.b0 + 1
+}
+
+type WaitGroup struct {
+	left uint64
+}
+
+func (w WaitGroup) Add(d uint64) uint64 {
+	return w.left + d
+}
+
+func (w WaitGroup) Done() uint64 {
+	return w.left + 100
+}
+
+func (w WaitGroup) Wait() uint64 {
+	return w.left * 3
+}
+
+func MkDisk(v uint64) Disk {
+	return Disk{n: v}
+}
+
+func MkFile(v uint64) File {
+	return File{pos: v}
+}
+
+func MkBlock(v uint64) Block {
+	return Block{b0: v}
+}
+
+func MkWG(v uint64) WaitGroup {
+	return WaitGroup{left: v}
+}
+`
+	uses := func(q string) string {
+		return strings.ReplaceAll(`func UseDiskValue(a uint64) uint64 {
+	d := Q:MkDisk(a % 7)
+	return d.Read(1) + d.Write(2, 3)*10 + d.Size()*100 + d.Barrier()
+}
+
+func UseDiskVar(a uint64) uint64 {
+	var d Q:Disk
+	d = Q:MkDisk(a%7 + 1)
+	return d.Size() + d.Read(4)
+}
+
+func UseDiskParam(a uint64) uint64 {
+	return sizeOf(Q:MkDisk(a%5)) + 1
+}
+
+func sizeOf(d Q:Disk) uint64 {
+	return d.Size() + d.Read(0)
+}
+
+func UseFileValue(a uint64) uint64 {
+	f := Q:MkFile(a % 9)
+	b := Q:MkBlock(a % 4)
+	return f.Len()*10 + b.First()
+}
+
+func UseWGValue(a uint64) uint64 {
+	w := Q:MkWG(a % 6)
+	return w.Add(2) + w.Done() + w.Wait()
+}
+`, "Q:", q)
+	}
+	useNames := []string{"UseDiskValue", "UseDiskVar", "UseDiskParam", "UseFileValue", "UseWGValue"}
+	args := []uint64{0, 3, 8, 255}
+	cases := func(b *strings.Builder) []string {
+		var cs []string
+		for _, u := range useNames {
+			for i, v := range args {
+				cn := fmt.Sprintf("case_%s_%d", u, i)
+				fmt.Fprintf(b, "\nfunc %s() uint64 {\n\treturn %s(%d)\n}\n", cn, u, v)
+				cs = append(cs, cn)
+			}
+		}
+		return cs
+	}
+	var out []*Package
+	for _, n := range LookalikeNames {
+		var b strings.Builder
+		fmt.Fprintf(&b, "package %s\n%s\n%s", n, valBody, uses(""))
+		cs := cases(&b)
+		out = append(out, &Package{Name: n, Source: b.String(), Cases: cs, Features: map[string]int{"lookalike-value-package-" + n: 1}})
+		var ub strings.Builder
+		fmt.Fprintf(&ub, "package use_%s\n\nimport \"%s/cases/%s\"\n\n%s", n, modPath, n, uses(n+"."))
+		ucs := cases(&ub)
+		out = append(out, &Package{Name: "use_" + n, Source: ub.String(), Cases: ucs, Features: map[string]int{"lookalike-value-import-" + n: 1}})
+	}
+	return out
+}
